@@ -9,6 +9,7 @@ request that asked for close.  Partial: the byte-level head scanner and body rea
 byte-level statement is decided on concrete streams by the reference framer `Spec.Rfc.frame` used as monitor.
 -/
 import FhVerif.Proofs.ReqFraming
+import FhVerif.Proofs.RfcProgress
 
 namespace Fh.Props.C01
 open Fh Fh.Model Fh.Spec.Rfc Fh.Proofs.ReqFraming
@@ -151,6 +152,34 @@ theorem no_dispatch_after_close (rs : List ReqOutcome) (i k : Nat) (hk : k < rs.
           · omega
           · have := ih (i + 1) k (by simpa using hk) (by simpa using hclose) j h
             omega
+
+/-! ### the byte-level monitor itself: `Spec.Rfc.frame`
+
+The byte-level statement of C01 is decided per stream by the reference framer.  Two facts about the reference that
+the monitor relies on, for every input: its verdict is not an artefact of the fuel its loops are given, and the messages
+it reports are consecutive, strictly advancing pieces of the stream (no byte is attributed to two messages, none
+lies beyond the input). -/
+
+/-- more fuel never changes what the reference framer reports: `input.length + 1` is enough for every input, so
+    `.incomplete` always means "the stream ends inside a message", never "out of fuel" -/
+theorem reference_fuel_adequate (input : Bytes) (k : Nat) :
+    frameLoop (input.length + 1 + k) 0 input [] = frame input :=
+  Proofs.RfcProgress.frameLoop_fuel _ _ 0 input [] (by omega) (by omega)
+
+/-- the end offsets of the reported messages are strictly increasing and lie inside the stream -/
+theorem reference_messages_advance (input : Bytes) :
+    ((frame input).1.map (·.endOff)).Pairwise (· < ·) ∧ ∀ m ∈ (frame input).1, m.endOff ≤ input.length := by
+  have := Proofs.RfcProgress.frameLoop_offsets (input.length + 1) 0 input [] input.length (by omega)
+    (by intro m hm; cases hm) (by simp)
+  simpa [frame] using this
+
+/-- one message of the reference: what is left is strictly shorter than what it started from -/
+theorem reference_message_consumes (off : Nat) (input : Bytes) (m : Msg) (rest : Bytes)
+    (h : frameOne off input = .msg m rest) : rest.length < input.length ∧ m.endOff = off + (input.length - rest.length) :=
+  Proofs.RfcProgress.frameOne_progress off input m rest h
+
+example : ((frame (ofString "GET /a HTTP/1.1\r\nHost: h\r\n\r\nPOST /b HTTP/1.1\r\nHost: h\r\nContent-Length: 2\r\n\r\nhiGET")).1.map
+    (·.endOff)) = [28, 78] := by decide +kernel
 
 /-! ### non-vacuity: the decision on concrete heads -/
 example : parseDecision false [(ofString "Host", ofString "h"), (ofString "Content-Length", ofString "3"),
